@@ -12,54 +12,66 @@ BASE_NOTE = ("Trusted base: Lean 4.33 kernel, Mathlib v4.33 as compiled on the i
              "/repo by the correspondence harness (tools/harness) on every run; CPython big-int arithmetic; hashlib/hmac. ")
 
 P = {
- "C01": ("proof (partial): key rejection, KeyGen range, spec equalities and decision logic are theorems about the model for all inputs; "
-         "'every honest signature verifies' for all keys/messages is conditional on the named hypotheses HB1 (pairing bilinearity) and HB2 (group orders) "
-         "and is exercised by correspondence + sign/verify round trips on the real code", "6 C01",
-         "Lean theorems (decision logic, key range) + model/implementation correspondence + round-trip predicates"),
- "C02": ("proof (partial): the rejection gates, the exact accept set of Verify at the decoding level (C04.verify_true_iff) and canonical encodings are theorems; "
-         "the 'iff' with the canonical signature needs HB1/HB2 and is decided by correspondence on the candidate classes of the quantifier and by the exactness predicate on the real code", "6 C02",
-         "Lean theorems (accept-set shape) + correspondence on candidate classes + exactness predicate"),
- "C03": ("proof (partial): Aggregate error behaviour, precondition gates (empty, length mismatch, bad key, repeated messages in the basic suite), Aggregate = draft procedure are theorems; "
-         "'accepts exactly the sum' needs HB1/HB2: correspondence + perturbation predicates", "6 C03",
-         "Lean theorems (gates, Aggregate = spec) + correspondence + perturbation predicates"),
- "C04": ("proof: totality of KeyValidate/Verify/AggregateVerify/FastAggregateVerify/PopVerify over the Except-model for all byte strings (only the 'unreachable' SWU exception is isolated as the hypothesis SwuTotal), "
-         "rejection of every non-canonical / out-of-subgroup / identity input, and safety of every pairing argument are theorems; the model is tied to the code by correspondence on a malformed stream", "6 C04",
+ "C01": ("proof (partial): for ALL keys in [1, r-1], messages and the three suites, Sign/PopProve always return and Verify/PopVerify accept the result "
+         "(C01_Proto, C01_ProtoHB2) — conditional ONLY on the explicit hypothesis structure PairingFacts' = bilinearity (HB1), non-degeneracy (ND) and "
+         "'the model's Miller loop + final exponentiation compute that pairing' (HB1'); group orders and hash_to_G2-in-subgroup are proved. Key rejection, "
+         "KeyGen range are unconditional theorems. Model tied to the code by correspondence; round trips on the real code", "8.3 C01",
+         "Lean theorems over the model (conditional on the named pairing hypotheses) + correspondence + round-trip predicates"),
+ "C02": ("proof (partial): verify_iff — Verify/PopVerify return True iff the candidate is byte-for-byte Sign/PopProve, for all inputs and suites, plus the "
+         "rejection corollaries (-S, 2S, S+T, identity, other key/message/tag) — conditional only on PairingFacts' (HB1, ND, HB1'); canonical encodings, subgroup "
+         "checks, totality are unconditional (C04, C11)", "8.3 C02",
+         "Lean theorems (conditional on the named pairing hypotheses) + correspondence on candidate classes + exactness predicate"),
+ "C03": ("proof (partial): Aggregate = encoding of the group sum, order/grouping independence, error behaviour are unconditional theorems; AggregateVerify / "
+         "FastAggregateVerify accept iff the signature is the aggregate of the signers' own signatures and the suite preconditions hold — conditional only on PairingFacts'", "8.3 C03",
+         "Lean theorems (Aggregate unconditional; verification conditional on the named pairing hypotheses) + correspondence + perturbation predicates"),
+ "C04": ("proof: KeyValidate/Verify/AggregateVerify/FastAggregateVerify/PopVerify NEVER raise (C04_Total.never_raises; the 'unreachable' SWU exception is proved unreachable), "
+         "return False for every non-canonical / out-of-subgroup / identity input, and every pairing argument is on the curve and in the subgroup — all unconditional theorems "
+         "about the model, which is tied to the code by correspondence on a malformed stream", "8.3 C04",
          "Lean theorems over the exception model + correspondence on malformed inputs + pairing-argument trace"),
- "C05": ("proof (partial): unit on infinity, refusal of off-curve arguments, exact error behaviour of all four implementations and the scalar/negation/order corollaries of bilinearity are theorems; "
-         "bilinearity itself is the named hypothesis HB1 (needs divisors; not in Mathlib) and is sampled on model and implementation", "6 C05",
+ "C05": ("proof (partial): unit on infinity, refusal of off-curve arguments with exact error characterisation (4 implementations), pairing values are r-th roots of unity, and the "
+         "scalar/negation/order corollaries of bilinearity are theorems; bilinearity itself is the named hypothesis HB1 (needs divisors; not in Mathlib), sampled on model and implementation", "8.3 C05",
          "Lean theorems (guards, corollaries of additivity) + exact FQ12 correspondence of the four Miller loops + bilinearity predicates"),
- "C06": ("proof: signature shape (v, low s), RFC 6979 nonce = specification, recover-after-sign over the proved group law of secp256k1 (#E = N proved); hypotheses k, r, s != 0 mod N are explicit", "6 C06",
-         "Lean theorems about translated code + correspondence incl. substituted nonces"),
- "C07": ("proof: the translated add/double/neg/multiply of all four modules are proved to BE the Mathlib elliptic-curve group (WeierstrassCurve.Affine.Point) for any field, any representative, every n; "
-         "commutativity/associativity/identity/inverse follow; constants equal the standards; generators have order r (kernel evaluation); #E(Fp)=r for bn128 proved", "6 C07",
+ "C06": ("proof: signature shape (v, low s), RFC 6979 nonce = specification, sign-then-recover returns privtopub(d) and the other v does not, verification equation — over the proved "
+         "group law of secp256k1 (#E = N proved); hypotheses r, s != 0 mod N explicit", "8.3 C06",
+         "Lean theorems about the ECDSA model over translated arithmetic + correspondence incl. substituted nonces"),
+ "C07": ("proof: the translated add/double/neg/multiply of all four modules ARE Mathlib's elliptic-curve group for any field, any representative, every n (340 theorems): on E(Fp), "
+         "E'(Fp2) and E(Fp12) of the concrete model; twist is an injective homomorphism; constants equal the standards; generators have order r; all four group orders proved "
+         "(#E(Fp) = r bn128, = h1 r BLS12-381; twists (2p-r) r and h2 r)", "8.3 C07",
          "translator + refinement theorems to Mathlib's group + kernel-evaluated curve facts + correspondence"),
- "C08": ("proof: FQ is ZMod p (ring iso, inverse, powers, int operands) for any prime; FQP is the quotient ring (ZMod p)[X]/(m) for any p and modulus, both classes; FQP.inv correct for any irreducible modulus; "
-         "X^2+1 and both degree-12 moduli proved irreducible, so FQ2 and FQ12 are fields", "6 C08",
+ "C08": ("proof: FQ is ZMod p for any prime; FQP is (ZMod p)[X]/(m) for any p and modulus, both classes; FQP.inv correct for any irreducible modulus; X^2+1 and both "
+         "degree-12 moduli proved irreducible, so FQ2 and FQ12 are fields — no hypothesis left", "8.3 C08",
          "refinement theorems to ZMod / AdjoinRoot + correspondence incl. exhaustive small fields"),
  "C09": ("proof: SkToPk/Sign/PopProve/Aggregate of the model equal the IETF draft-v4 procedures for all inputs; tags equal the draft strings; model tied to code by correspondence; "
-         "real bytes compared with an independent composition", "6 C09", "Lean spec-equality theorems + correspondence + independent byte-level oracle"),
- "C10": ("proof (partial): hash_to_curve structure = RFC composition, SSWU for G1 returns a point of the isogenous curve with the RFC's x and sign (theorems); G2 SSWU / isogeny polynomial identities by correspondence against a straight-line RFC transcription", "6 C10",
-         "Lean theorems (structure, G1 SSWU) + correspondence + RFC straight-line oracle"),
- "C11": ("proof: G1 codec fully (round trip, canonicity, exact accept set, the known finding K1 proved as a negative); G2 byte/flag level and decode-implies-on-curve; G2 round trip via the FQ2 square root", "6 C11",
+         "real bytes compared with an independent composition", "8.3 C09", "Lean spec-equality theorems + correspondence + independent byte-level oracle"),
+ "C10": ("proof: SSWU for G1 and G2 equals the RFC 9380 straight-line map for EVERY field element incl. exceptional inputs (sgn0, branch choice, never raises), the isogeny maps land on "
+         "the target curves (polynomial identities checked by reflection), hash_to_curve = RFC composition, results are on the curve and in the prime-order subgroup (group orders proved)", "8.3 C10",
+         "Lean theorems (SSWU, isogeny by reflection, group orders) + correspondence + RFC straight-line oracle"),
+ "C11": ("proof: G1 and G2 codecs completely: round trip for every on-curve point and representative, canonicity of everything the decoders accept, exact accept sets, ValueError otherwise; "
+         "the known finding K1 (G1 points with x = 0) is proved as a negative and listed in known_findings.jsonl", "8.3 C11",
          "Lean theorems about the codec model + correspondence on word tables"),
- "C12": ("proof (partial): exponent identities, split final exponentiation = plain power, two-step product form are theorems; optimized = reference Miller values by exact FQ12 correspondence of all four implementations", "6 C12",
-         "Lean theorems (exponent identities) + exact correspondence of the four pairings"),
- "C13": ("proof: every control path of the translated projective add/double/neg/eq/is_on_curve/linefunc (both optimized modules) and of secp256k1's Jacobian add/double equals the affine law, for all triples over any field, any representative", "6 C13",
+ "C12": ("proof (partial): BLS12-381 optimized pairing = reference pairing for every subgroup point and representative (theorem, incl. Miller-loop induction), split final "
+         "exponentiation = plain power, exp_by_p = p-th power, two-step product form — theorems; bn128 optimized (signed digits) = reference by exact FQ12 correspondence", "8.3 C12",
+         "Lean theorems (Miller-loop refinement, exponent identities) + exact correspondence of the four pairings"),
+ "C13": ("proof: every control path of the translated projective add/double/neg/eq/is_on_curve/linefunc (both optimized modules) and of secp256k1's Jacobian add/double equals the "
+         "affine law, for all triples over any field, any representative", "8.3 C13",
          "translator + field-generic polynomial-identity theorems (field_simp; ring)"),
- "C14": ("proof: optimized and reference classes are proved equal operation by operation (same quotient-ring value, injectivity on canonical representatives), incl. inverse/division for every irreducible modulus; sgn0 = RFC 9380", "6 C14",
+ "C14": ("proof: optimized and reference classes are proved equal operation by operation (same quotient-ring value, injectivity on canonical representatives), incl. inverse/division "
+         "for every irreducible modulus (FQ2, FQ12 instances hypothesis-free); sgn0 = RFC 9380", "8.3 C14",
          "refinement theorems + random expression-tree correspondence (reference, optimized, textbook)"),
- "C15": ("proof: expand_message_xmd and hash_to_field of the model equal the RFC 9380 specification for every hash, message, tag, length, count; exact error characterisation; model tied to code by hash-transcript correspondence", "6 C15",
-         "Lean spec-equality theorems generic in the hash + transcript correspondence"),
- "C16": ("proof: HMAC/HKDF-Extract/Expand = RFC 2104/5869, KeyGen = draft v4 procedure, range [1, r-1], for all inputs", "6 C16",
+ "C15": ("proof: expand_message_xmd and hash_to_field of the model equal the RFC 9380 specification for every hash, message, tag, length, count; exact error characterisation; "
+         "model tied to code by hash-transcript correspondence", "8.3 C15", "Lean spec-equality theorems generic in the hash + transcript correspondence"),
+ "C16": ("proof: HMAC/HKDF-Extract/Expand = RFC 2104/5869, KeyGen = draft v4 procedure, range [1, r-1], for all inputs", "8.3 C16",
          "Lean spec-equality theorems + correspondence with native SHA-256 model"),
- "C17": ("proof: subgroup_check <-> r.P = 0 for any representative over any field; mixed points rejected (coprimality proved); cofactor constants derived from x; clearing = h_eff multiplication; 'every curve point lands in the subgroup' needs #E = h r (HB2, Hasse bound not in Mathlib)", "6 C17",
-         "Lean theorems (exactness, coprimality, constants) + correspondence on torsion-mixed points"),
- "C18": ("proof: translated secp256k1 add/multiply refine Mathlib's group on y^2=x^3+7 over ZMod P; #E = N proved elementarily; multiply(P, n) = (n mod N).P for every integer n; SEC 2 constants", "6 C18",
+ "C17": ("proof: subgroup_check <-> r.P = 0 for any representative (field-generic and on the concrete model); mixed points rejected; the r-torsion is exactly <generator>; "
+         "cofactor constants derived from x; #E(Fp) = h1 r and #E'(Fp2) = h2 r PROVED elementarily, hence clearing maps EVERY curve point into the subgroup — no hypothesis left", "8.3 C17",
+         "Lean theorems (exactness, group orders, constants) + correspondence on torsion-mixed points"),
+ "C18": ("proof: translated secp256k1 add/multiply refine Mathlib's group on y^2=x^3+7 over ZMod P; #E = N proved; multiply(P, n) = (n mod N).P for every integer n; SEC 2 constants", "8.3 C18",
          "translator + refinement theorems + group-order proof + exhaustive small-curve runs of the real module"),
- "C19": ("proof: rejection conditions and error kinds, parity selection, and soundness of the recovered key over the proved group law", "6 C19",
+ "C19": ("proof: exact acceptance condition (ValueError iff v, r, s or the residue test fail), parity selection, and soundness/uniqueness of the recovered key over the proved group law", "8.3 C19",
          "Lean theorems about the ECDSA model over translated arithmetic + correspondence over the v,r,s tables"),
- "C20": ("proof: effect summaries of all 217 functions regenerated from source are clean (theorem all_clean); clean programs are history-independent in any heap semantics respecting the summaries (theorem clean_pure); the executable model is history-free; "
-         "random interleavings on the real interpreter in two orders and in a fresh process", "6 C20",
+ "C20": ("proof: effect summaries of all 217 functions regenerated from source are clean (theorem all_clean); clean programs are history-independent in any heap semantics respecting the "
+         "summaries (theorem clean_pure; the semantic link Sem.frame/Sem.det is a stated hypothesis); the executable model is history-free; random interleavings on the real interpreter in two "
+         "orders and in a fresh process, value snapshots of arguments and constants", "8.3 C20",
          "static effect translator + Lean frame theorem + history correspondence"),
 }
 
